@@ -24,3 +24,4 @@ def run(repo, res, tier):
         apirules.rule_f1(repo, res, "new")
     apirules.rule_f2(repo, res)
     apirules.rule_f2b(repo, res)
+    apirules.rule_f3(repo, res)
